@@ -27,9 +27,20 @@ try:
             if rel in ("patch.diff", "meta.json") or rel.endswith(".txt") or rel.endswith(".md"):
                 continue
             demos.append(rel)
+    import re as _re
+    demo_dir = ""
+    m_ = _re.search(r"([\w./-]+/)[\w.-]+\.go", str(meta["demo"].get("path", "")))
+    if m_:
+        demo_dir = m_.group(1)
+    placed = []
     def put_demos():
         for rel in demos:
-            dst = os.path.join(wt, rel); os.makedirs(os.path.dirname(dst), exist_ok=True); shutil.copy(os.path.join(d, rel), dst)
+            # a demo file stored flat in the seed directory goes where meta.json says the demo lives
+            dest = rel if os.path.dirname(rel) else os.path.join(demo_dir, rel)
+            if not dest.endswith(".go"):
+                continue
+            dst = os.path.join(wt, dest); os.makedirs(os.path.dirname(dst), exist_ok=True); shutil.copy(os.path.join(d, rel), dst)
+            placed.append(dest)
     run = meta["demo"]["run"]
     for old in ("/tmp/seed/wt-%s" % meta["property"], "<worktree>", "<your-worktree>"):
         run = run.replace(old, wt)
@@ -46,8 +57,9 @@ try:
     rc1, o1 = sh(run, cwd=wt, timeout=900)
     out["demo_with_change"] = "fail" if rc1 != 0 else "PASSES"
     out["demo_with_change_tail"] = o1[-400:]
+    out["demo_files"] = placed[:len(demos)]
     # pinned suite with the change (demo files removed)
-    for rel in demos:
+    for rel in placed:
         try: os.remove(os.path.join(wt, rel))
         except OSError: pass
     rc2, o2 = sh("go1.26 test -vet=off -count=1 ./dkv/... ./batching/... ./util/... ./storage/locations/... ./storage/objstore/... 2>&1 | grep -v '^ok\\|no test files'", cwd=wt)
